@@ -165,7 +165,11 @@ impl Suite for LogFile {
             Ok(d) => d,
             Err(_) => return json!({"r":"tmperr"}),
         };
-        let path = dir.path().join("log_x").to_string_lossy().into_owned();
+        // "path": run on an existing / caller-owned file (crash images of C04); it is left in place
+        let path = match case.get("path").and_then(|p| p.as_str()) {
+            Some(p) => p.to_owned(),
+            None => dir.path().join("log_x").to_string_lossy().into_owned(),
+        };
         let out: Mutex<Vec<Value>> = Mutex::new(vec![]);
         let ops: Vec<Value> = case["ops"].as_array().cloned().unwrap_or_default();
         let r = catch_unwind(AssertUnwindSafe(|| {
